@@ -34,3 +34,35 @@ reg("C10", "exploration", "panic monitor + process-exit journal over isolated wo
     "Every API is driven under recover over tokens from hostile bytes; validly signed adversarial field values reach evaluation; a process death is attributed to its input by the worker journal.",
     "32-byte keys; address space capped.",
     "DESIGN.md 3/C10")
+reg("C02", "exploration", "relational monitor over (parent, attenuated child) pairs with hostile appended blocks (builder API and raw R3-written blocks signed with the token's own secret)",
+    "For every pair the same authorizer content is run on the parent and on the child (first and second Authorize); a child accepted while its parent is refused is a violation. Appended blocks state and derive exactly what the policies and checks ask for, and include wire-level shapes the builder cannot produce.",
+    "Large limits; parent LIMIT is inconclusive.",
+    "DESIGN.md 3/C02")
+reg("C03", "exploration", "relational monitor (with vs without a check-free block at every position; class + probe answers) + leak sensitivity measured with reference authorizer R5",
+    "A check-free block that states or derives what policies/checks ask for is inserted at every position; outcome class and authorizer query answers must not change; blocks asking for facts of the reference authority closure must pass.",
+    "Error-free fragment.",
+    "DESIGN.md 3/C03")
+reg("C12", "exploration", "relational monitor over presentation variants (permutations, consistent renaming, duplication incl. on the wire, repeated Authorize)",
+    "8 presentation variants per scenario and 3 Authorize calls on one authorizer must give the base outcome class and the base derived-fact sets.",
+    "Error-free fragment; policies keep their order.",
+    "DESIGN.md 3/C12")
+reg("C13", "exploration", "relational monitor: reused authorizer after Reset vs fresh authorizer, over multi-round histories; leak sensitivity measured with R5",
+    "Each round of a 2-6 round history is replayed on a fresh authorizer; class and query answers must agree; the number of rounds where a leak would be visible is measured.",
+    "Large limits.",
+    "DESIGN.md 3/C13")
+reg("C18", "exploration", "relational monitor (direct vs snapshot-restored authorizer across independent tokens) + refusal after evaluation + panic monitor on malformed snapshots",
+    "Content saved on an authorizer for token T1 is loaded for an independent token T2 and compared with direct entry; saving after Authorize/Query must fail; bit-flipped, truncated, random and R3-written hostile AuthorizerPolicies must not panic.",
+    "Loading authorizer is fresh.",
+    "DESIGN.md 3/C18")
+reg("C09", "exploration", "sealed/unsealed twin comparison over an authorizer panel + error presence + mutation catalogue on the sealed envelope decided by R3",
+    "Every sealed twin (also re-loaded) is compared with its source over a panel, Append/Seal on it must fail, and the sealed envelope gets the C01 catalogue plus a bit flip in every byte of seal, last signature and last key.",
+    "As C01.",
+    "DESIGN.md 3/C09")
+reg("C17", "exploration", "provenance monitor: case-wide identifier <-> signing-event map (injective both ways), prefix rule, R3 signature equality; seeded stream and crypto/rand",
+    "Histories with only three block contents under one root; every identifier is tied to the signing event that created its block and checked for stability, uniqueness, prefix inheritance and equality with the signature on the wire.",
+    "Seeded stream does not repeat 32-byte windows.",
+    "DESIGN.md 3/C17")
+reg("C11", "exploration", "reference fixpoint vs limit sentinels over limit grids; duration sentinel; entry-point option checks; goroutine-profile quiescence monitor with delay hooks",
+    "No run cut short by a limit may look like success; every entry point must honour options; after every outcome kind (27 shapes + authorizer-level) the goroutine profile must show no goroutine of the call parked forever.",
+    "Quiescence restated as: parked on a private channel for 5 consecutive polls; duration verdict has 10 s slack.",
+    "DESIGN.md 3/C11")
